@@ -1,6 +1,7 @@
 package props
 
 import (
+	"sort"
 	"encoding/json"
 	"fmt"
 	"strings"
@@ -176,7 +177,7 @@ func lifeConcScenarios(prop string) []*Scenario {
 func registerLife(prop, title string) {
 	mc.Register(&mc.Check{
 		Prop:        prop,
-		Rule:        "(a) configurations: every producer form set (<=2 of 21 templates) x consumer shape x lifetime pairing of the C04 enumeration, judged by the lifetime oracle; (b) histories: every sequence to depth 3 (quick) / 4 (thorough) over {CreateScope(provider|scope), 14 resolutions by type/key/group, Close} on <=3 scopes of a 16-registration container covering all forms for all lifetimes, each completed by closing the provider; (c) schedules: 2-3 goroutines resolving colliding identities, preemption bound 2 (3 thorough); (d, C01) two providers built from one collection and alive together: every history to depth 4 (5) over {use p1, use p2, close p1, close p2}: one construction per singleton per provider, nothing created for one provider handed out by the other. Oracle: " + title + ". An outcome is the canonical observation string of one execution.",
+		Rule:        "(a) configurations: every producer form set (<=2 of 21 templates) x consumer shape x lifetime pairing of the C04 enumeration, judged by the lifetime oracle; (b) histories: every sequence to depth 3 (quick) / 4 (thorough) over {CreateScope(provider|scope), 14 resolutions by type/key/group, Close} on <=3 scopes of a 16-registration container covering all forms for all lifetimes, each completed by closing the provider; (c) schedules: 2-3 goroutines resolving colliding identities, preemption bound 2 (3 thorough); (d, C01) two providers built from one collection and alive together: every history to depth 4 (5) over {use p1, use p2, close p1, close p2}: one construction per singleton per provider, nothing created for one provider handed out by the other; (e, C01) singleton multi-output constructors with a nil output (nil interface return, nil result-object field) under every map-iteration order within deviation bound 2 from both base orders: one verdict, and if Build succeeds one construction and one instance. Oracle: " + title + ". An outcome is the canonical observation string of one execution.",
 		Assume:      []string{"instances are identified by the recorder (registration, invocation serial, output index) embedded in every value the harness constructors create"},
 		MinOutcomes: 10,
 		Jobs: func(tier string) []mc.Job {
@@ -292,6 +293,7 @@ func registerLife(prop, title string) {
 			}
 			if prop == "C01" {
 				jobs = append(jobs, mc.Job{Name: "C01-removed-outputs", Run: c01RemovedOutputs})
+				jobs = append(jobs, mc.Job{Name: "C01-nil-output", Run: c01NilOutput})
 				jobs = append(jobs, twoProvJob(prop, depth4(tier)))
 			}
 			for _, np := range []int{1, 2} {
@@ -439,4 +441,132 @@ func init() {
 	registerLife("C01", "each singleton constructor ran exactly once, during Build; every hand-out of a singleton identity (result or constructor argument) is that one instance, for every output of multi-output constructors")
 	registerLife("C02", "at most one successful construction per (scoped registration, scope); all hand-outs inside one scope identical; no instance crosses scopes; initializers ran exactly once per created scope, at creation")
 	registerLife("C03", "every transient instance is handed out exactly once (result or constructor argument); every successful construction was delivered to a request site")
+}
+
+// c01NilOutput: a singleton constructor with several outputs one of which is nil (a nil
+// interface value / a nil result-object field), plus a consumer of the non-nil output; every
+// map-iteration order within the deviation bound from both base orders. Whatever godi decides to
+// do with the nil output, (a) the decision does not depend on the iteration order, (b) if Build
+// succeeds the constructor has run exactly once and the consumer holds the instance that is
+// resolved afterwards.
+type c01NilCase struct {
+	Form    string `json:"form"` // multi-iface | resobj | resobj-iface
+	Nil     int    `json:"nil"`
+	Reverse bool   `json:"base_reverse"`
+	Choices []int  `json:"choices,omitempty"`
+}
+
+func c01NilSpec(c c01NilCase) kit.Spec {
+	r0 := kit.Reg{ID: 0, Life: "singleton"}
+	switch c.Form {
+	case "multi-iface":
+		r0.Outs = []kit.Out{{T: "IA", Conc: "D1"}, {T: "IB", Conc: "D2"}}
+	case "resobj":
+		r0.ResObj = true
+		r0.Outs = []kit.Out{{T: "D1"}, {T: "D2"}}
+	case "resobj-iface":
+		r0.ResObj = true
+		r0.Outs = []kit.Out{{T: "IA", Conc: "D1"}, {T: "IB", Conc: "D2", Key: "k"}}
+	}
+	keep := r0.Outs[1-c.Nil]
+	cons := kit.Reg{ID: 1, Life: "singleton", In: true, Outs: []kit.Out{{T: "P0"}}, Deps: []kit.Dep{{T: keep.T, Key: keep.Key}}}
+	cons2 := kit.Reg{ID: 2, Life: "singleton", In: true, Outs: []kit.Out{{T: "P1"}}, Deps: []kit.Dep{{T: "P0"}, {T: keep.T, Key: keep.Key}}}
+	return kit.Spec{Regs: []kit.Reg{cons2, r0, cons}}
+}
+
+func c01NilOutput(r *mc.Report) {
+	type obs struct {
+		verdict string
+		fs      []Finding
+	}
+	runOne := func(c c01NilCase) obs {
+		spec := c01NilSpec(c)
+		keep := spec.Regs[1].Outs[1-c.Nil]
+		e := NewEnv(&spec)
+		e.W.Faults["0:*"] = fmt.Sprintf("nil:%d", c.Nil)
+		e.Build()
+		var o obs
+		if e.BuildPanic != nil {
+			o.fs = append(o.fs, Finding{feat("clause", "panic", "op", "build"), fmt.Sprint(e.BuildPanic)})
+			o.verdict = "panic"
+			return o
+		}
+		if e.Prov == nil {
+			o.verdict = "fails:" + kit.ClassOf(e.BuildErr)
+			return o
+		}
+		o.verdict = "ok"
+		if n := len(e.W.CallsOf(0)); n != 1 {
+			o.fs = append(o.fs, Finding{feat("clause", "singleton-ctor-count", "count", fmt.Sprint(n), "form", c.Form, "life", "singleton"),
+				fmt.Sprintf("Build succeeded but the singleton constructor %s ran %d times", &spec.Regs[1], n)})
+		}
+		rr := e.Do(Op{Kind: "get", T: keep.T, Key: keep.Key})
+		got := kit.InstOf(rr.Val)
+		for _, cl := range e.W.Calls {
+			if cl.Reg == 0 {
+				continue
+			}
+			for _, a := range cl.Args {
+				if a.Kind == "inst" && a.Inst.Reg == 0 && a.Inst != got {
+					o.fs = append(o.fs, Finding{feat("clause", "singleton-two-instances", "form", c.Form, "life", "singleton"),
+						fmt.Sprintf("consumer r%d was built with %s, but the singleton resolved afterwards is %s", cl.Reg, a.Inst.Label(), kit.Describe(rr.Val))})
+				}
+			}
+		}
+		e.Do(Op{Kind: "close", Scope: ""})
+		return o
+	}
+	if r.Only != nil {
+		var c c01NilCase
+		if json.Unmarshal(r.Only, &c) == nil && c.Form != "" {
+			vsched.BaseReverse = c.Reverse
+			defer func() { vsched.BaseReverse = false }()
+			var o obs
+			if c.Choices == nil {
+				c.Choices = []int{}
+			}
+			vsched.Run(c.Choices, func(s *vsched.Sched) { s.NoRace = true }, func() { o = runOne(c) })
+			fmt.Println("verdict:", o.verdict)
+			r.Executions++
+			for _, f := range o.fs {
+				r.Violate(f.F, f.Detail, c)
+			}
+		}
+		return
+	}
+	for _, form := range []string{"multi-iface", "resobj", "resobj-iface"} {
+		for n := 0; n < 2; n++ {
+			verdicts := map[string]c01NilCase{}
+			for _, rev := range []bool{false, true} {
+				c := c01NilCase{Form: form, Nil: n, Reverse: rev}
+				vsched.BaseReverse = rev
+				var o obs
+				st := mc.Explore(mc.Bounds{OrderDev: 2, NoRace: true, Deadline: r.Deadline}, func() { o = runOne(c) }, func(s *vsched.Sched, cost [2]int) bool {
+					cc := c
+					cc.Choices = s.Choices()
+					if _, ok := verdicts[o.verdict]; !ok {
+						verdicts[o.verdict] = cc
+					}
+					r.Outcome(fmt.Sprintf("nil-output %s nil=%d | %s", form, n, o.verdict))
+					for _, f := range o.fs {
+						r.Violate(f.F, f.Detail+fmt.Sprintf("\n  singleton %s constructor, output %d always nil, map-order choices %v (reversed base %v)", form, n, cc.Choices, rev), cc)
+					}
+					return true
+				})
+				vsched.BaseReverse = false
+				r.AddStats(st)
+			}
+			if len(verdicts) > 1 {
+				var l []string
+				var first c01NilCase
+				for v, c := range verdicts {
+					l = append(l, v)
+					first = c
+				}
+				sort.Strings(l)
+				r.Violate(feat("clause", "singleton-nil-output-verdict-depends-on-order", "form", form, "life", "singleton"),
+					fmt.Sprintf("a singleton %s constructor whose output %d is nil: Build's verdict depends on the map iteration order: %v", form, n, l), first)
+			}
+		}
+	}
 }
